@@ -1651,7 +1651,57 @@ func c12eCallers(c *Ctx) {
 // map: in each of the three case parsers, every map that is returned is updated, under the
 // case's own name, on every successful path from the parse of the case content to the next
 // iteration — never only for some contents (an explicitly empty case is still a case).
+// c12fSiblings: the three case parsers (statements, text, lists) accept the same case labels: a
+// case is recorded under the same condition on its label token in all three. (A label kind one
+// of them turns away — numbers, say — would make the same poryswitch legal around statements
+// and an error around a text.)
+func c12fSiblings(c *Ctx) {
+	got := map[string]string{}
+	var names []string
+	for _, name := range []string{"parser.Parser.parsePoryswitchStatementCases", "parser.Parser.parsePoryswitchTextCases", "parser.Parser.parsePoryswitchListCases"} {
+		fn := c.Fn(name)
+		if fn == nil {
+			continue
+		}
+		var up *ssa.MapUpdate
+		instrs(fn, func(in ssa.Instruction) {
+			if u, ok := in.(*ssa.MapUpdate); ok && up == nil {
+				up = u
+			}
+		})
+		if up == nil {
+			continue
+		}
+		d := c.PC(fn).At(up.Block())
+		// what the record depends on, as far as the label token goes: keep the atoms on token
+		// types, drop versions and the error tests
+		lits := map[string]bool{}
+		for _, cj := range d.cs {
+			for _, l := range cj {
+				l = verRe.ReplaceAllString(l, "")
+				if strings.Contains(l, `.Type == "IDENT")`) || strings.Contains(l, `.Type == "INT")`) || strings.Contains(l, `.Type == "STRING")`) || strings.Contains(l, `.Type == "_")`) {
+					lits[l] = true
+				}
+			}
+		}
+		var ls []string
+		for l := range lits {
+			ls = append(ls, l)
+		}
+		sortStrings(ls)
+		got[fn.Name()] = strings.Join(ls, " & ")
+		names = append(names, fn.Name())
+	}
+	if len(names) < 3 {
+		c.Bad("case-labels/siblings-agree", "-", "the three poryswitch case parsers were not all found")
+		return
+	}
+	same := got[names[0]] == got[names[1]] && got[names[1]] == got[names[2]] && got[names[0]] != ""
+	c.Check(same, "case-labels/siblings-agree", c.W.FuncPos(c.Fn("parser.Parser.parsePoryswitchTextCases")), "statement, text and list cases accept the same labels ("+got[names[0]]+")", fmt.Sprintf("the three poryswitch case parsers accept different case labels: %s [%s], %s [%s], %s [%s]", names[0], got[names[0]], names[1], got[names[1]], names[2], got[names[2]]))
+}
+
 func c12f(c *Ctx) {
+	c12fSiblings(c)
 	for _, name := range []string{"parser.Parser.parsePoryswitchStatementCases", "parser.Parser.parsePoryswitchTextCases", "parser.Parser.parsePoryswitchListCases"} {
 		fn := c.Fn(name)
 		if fn == nil {
